@@ -204,7 +204,7 @@ def tree_validate(doc: Doc, root: Any, leafkey: str) -> Dict[str, int]:
     root without Limits and with exactly one of leafkey/Kids; every other node
     with Limits = [least, greatest] key below it; leaves sorted strictly
     ascending; Kids are indirect references; intermediate nodes have Kids only."""
-    stats = {"nodes": 0, "leaves": 0, "depth": 0, "maxfan": 0, "entries": 0}
+    stats = {"nodes": 0, "leaves": 0, "depth": 0, "maxfan": 0, "entries": 0, "direct_kids": 0}
 
     def walk(node: Any, is_root: bool, depth: int) -> Tuple[Any, Any]:
         d = deref(doc, node)
@@ -241,8 +241,12 @@ def tree_validate(doc: Doc, root: Any, leafkey: str) -> Dict[str, int]:
             stats["maxfan"] = max(stats["maxfan"], len(arr))
             spans = []
             for k in arr:
-                if not isinstance(k, Ref):
-                    raise TreeError("Kids element is not an indirect reference")
+                # Table 36 asks for indirect references; property C17 quantifies over "direct or indirect
+                # nodes", so a kid written inline as a dictionary is accepted and counted.
+                if isinstance(k, dict):
+                    stats["direct_kids"] += 1
+                elif not isinstance(k, Ref):
+                    raise TreeError("Kids element is neither a reference nor a dictionary")
                 spans.append(walk(k, False, depth + 1))
             ss = sorted(spans)
             for (a0, a1), (b0, b1) in zip(ss, ss[1:]):
